@@ -223,7 +223,13 @@ class TranslateNode(Node, TranslatableTag):
 
     def block_scope(self) -> Iterable[Identifier]:
         """Return variables this node adds to the node's block scope."""
-        yield from (Identifier(p.name, token=p.token) for p in self.args.values())
+        # The message context argument is taken out of the namespace before the
+        # message is formatted, so it is not in scope of the message variables.
+        yield from (
+            Identifier(p.name, token=p.token)
+            for p in self.args.values()
+            if p.name != self.message_context_var
+        )
 
     def expressions(self) -> Iterable[Expression]:
         """Return this node's expressions."""
